@@ -479,6 +479,7 @@ def part_d(tier):
                     if qg:
                         com.append(blk('foo_thing_get_label', ident='(get-property %s)' % qg))
                     cases.append({'part': 'D', 'decls': d, 'comments': com, 'annotated_accessors': True,
+                                  'explicit_methods': (['set_label'] if qs else []) + (['get_label'] if qg else []),
                                   'dump': dump_xml(props=[('label', 'gchararray', flags), ('title', 'gchararray', 3)]),
                                   'note': 'set_label (set-property %s), get_label (get-property %s), title accessors %s, '
                                           'label flags %d' % (qs, qg, own, flags)})
@@ -637,7 +638,13 @@ def _work(chunk):
                 continue
             key = 'gen:%s:%s' % (case['part'], classify(fd, root))
             if fd[0] == 'accessor-unique':
-                key = 'gen:%s:accessor-unique:%s' % (case['part'], 'explicit' if case.get('annotated_accessors') else 'inferred')
+                # a claimant carrying an explicit (set-property)/(get-property) is a user-provided contradiction the
+                # statement ("an INFERRED setter or getter ... agree") does not cover: UNSPECIFIED
+                claimants = [x.strip() for x in fd[2].rsplit('methods ', 1)[1].split(',')]
+                if set(claimants) & set(case.get('explicit_methods') or ()):
+                    part.add(unspecified=1)
+                    continue
+                key = 'gen:%s:accessor-unique:inferred' % case['part']
             if fd[0] == 'shadow-pair' and case.get('shape'):
                 key = 'gen:%s:shadow-pair:%s' % (case['part'], case['shape'])
             _keep(best, key, '%s at %s: %s [%s]' % (fd[0], fd[1], fd[2], case['note']), case)
